@@ -7,7 +7,7 @@ CONSTANTS
   MaxPos = 3
   MaxKw = 2
   MaxArgs = 3
-  FnFilter = "all"
+  FnFilter = "old"
   Shapes = {"plain", "star"}
   MaxSess = 3
   FixProtoCache = TRUE
